@@ -13,6 +13,8 @@ From Coq Require Import List Arith Bool NArith.
 From NV Require Import Io.Sched Io.SchedProofs Bgzf.MtWriter Bgzf.MtWriterProofs Bgzf.MtReader Bgzf.MtReaderProofs.
 From NV Require Bgzf.Vpos Bgzf.Gzi Bgzf.ReaderOps Bgzf.MtReaderOps Bgzf.MtReaderOpsProofs.
 From NV Require Bgzf.MtReaderErr Bgzf.MtReaderErrProofs Io.SchedFair.
+From NV Require Bgzf.ReaderErrFuelProofs.
+From NV Require Bgzf.MtReaderBridge Bgzf.MtReaderBridgeProofs Bgzf.MtWriterBridge Bgzf.MtWriterBridgeProofs Bgzf.MtStageBridgeProofs.
 From NV Require Sinks.Sink Sinks.SinkProofs Sinks.Mt Sinks.MtApp Bgzf.MtWriterApi.
 Import ListNotations.
 
@@ -611,3 +613,234 @@ Theorem c03_writer_api_failure_reported :
 Proof. exact mtw_api_failure_reported. Qed.
 Print Assumptions c03_writer_api_failure_reported.
 End API.
+
+(* ============================================================================================
+   ONE READER MODEL (round 8; NV.Bgzf.MtReaderBridge): the op-level model of Module OPS is the
+   restriction of the error model of Module ERR to files all of whose frames are good, and
+   OutOfFuel is unreachable in the error model.
+   ============================================================================================ *)
+Module ONE.
+Import NV.Bgzf.Vpos NV.Bgzf.Gzi NV.Bgzf.ReaderOps NV.Io.Sched NV.Bgzf.MtReaderOps NV.Bgzf.MtReaderErr
+       NV.Bgzf.MtReaderErrProofs NV.Bgzf.MtReaderBridge NV.Bgzf.MtReaderBridgeProofs.
+
+(* BRIDGE: for EVERY parsed file f (no well-formedness hypothesis), pool size >= 1, schedule, index
+   and history -- get_mut and finish included -- the error model run on [goods f] (every frame
+   SGood) produces exactly the history of the op-level model on f.  So there is ONE model of the
+   MultithreadedReader; everything proved about NV.Bgzf.MtReaderOps is a statement about
+   NV.Bgzf.MtReaderErr on all-good files, and both are compared with noodles-bgzf (kinds rh, rhv). *)
+Theorem c03_err_model_restricts_to_ops_model :
+  forall (P : nat) (sch : nat -> list act) (f : file) (idx : gzi_index) (ops : list mop),
+    (0 < P)%nat ->
+    em_run P sch (goods f) idx (em_init (goods f)) ops = m_run P sch f idx (m_init f) ops.
+Proof. intros P sch f idx ops HP. exact (err_model_restricts_to_ops_model P sch HP f idx ops). Qed.
+Print Assumptions c03_err_model_restricts_to_ops_model.
+
+(* the bridge is state by state: the embedding commutes with every single operation *)
+Theorem c03_err_model_step_is_ops_model_step :
+  forall (P : nat) (sch : nat -> list act) (f : file) (idx : gzi_index) (m : mstate) (o : mop),
+    (0 < P)%nat -> em_ok (emb m) ->
+    em_step P sch (goods f) idx (emb m) o
+    = (emb (fst (m_step P sch f idx m o)), snd (m_step P sch f idx m o)).
+Proof. intros P sch f idx m o HP Hok. exact (emb_step P sch HP f idx m o Hok). Qed.
+Print Assumptions c03_err_model_step_is_ops_model_step.
+
+(* the pipeline part of the bridge, generic: the ticket pipeline commutes with any map of its
+   items and consumer states that respects ready / step / stopped, action by action *)
+Theorem c03_pipeline_commutes_with_maps :
+  forall (A B C D : Type) (g : A -> B) (h : C -> D) (readyA : A -> bool) (readyB : B -> bool)
+         (stepA : C -> A -> C) (stepB : D -> B -> D) (stopA : C -> bool) (stopB : D -> bool)
+         (can : nat -> bool -> bool) (pool : nat),
+    (forall x, readyB (g x) = readyA x) -> (forall c x, stepB (h c) (g x) = h (stepA c x)) ->
+    (forall c, stopB (h c) = stopA c) ->
+    forall s a,
+      Sched.step (fun x : B => x) readyB stepB stopB can pool (map_st g h s) a
+      = map_st g h (Sched.step (fun x : A => x) readyA stepA stopA can pool s a).
+Proof. exact map_step. Qed.
+Print Assumptions c03_pipeline_commutes_with_maps.
+
+(* OLD THEOREM AS A COROLLARY: OPS.c03_mt_reader_equals_st re-derived THROUGH the error model --
+   the op-level multithreaded model equals the error-path single-threaded reader (of the tree as it
+   is and of the repaired one) on the embedded file ... *)
+Theorem c03_ops_model_equals_err_st :
+  forall (P : nat) (sch : nat -> list act) (f : file) (idx : gzi_index) (ops : list op) (fxe : bool),
+    (0 < P)%nat -> Forall (fun b => (0 < csize b /\ flen b <= 65536)%N) f ->
+    m_run P sch f idx (m_init f) (map MOp ops) = e_run fxe (goods f) idx (e_init (goods f)) ops.
+Proof. exact ops_model_equals_err_st. Qed.
+Print Assumptions c03_ops_model_equals_err_st.
+
+(* ... and the two single-threaded models (C02's ReaderOps and the error-path reader) agree on
+   well-formed files, for every history *)
+Theorem c03_st_models_agree :
+  forall (f : file) (idx : gzi_index) (ops : list op) (fxe : bool),
+    Forall (fun b => (0 < csize b /\ flen b <= 65536)%N) f ->
+    e_run fxe (goods f) idx (e_init (goods f)) ops = ReaderOps.run true f idx (ReaderOps.init f) ops.
+Proof. exact st_models_agree. Qed.
+Print Assumptions c03_st_models_agree.
+
+(* OUT OF FUEL IS UNREACHABLE in the error model of the MultithreadedReader: for EVERY file
+   (corrupt blocks, broken last frame, no size hypothesis), pool size >= 1, schedule, index and
+   history (get_mut / finish included) no operation result and no virtual position is OutOfFuel:
+   the fuel of the read-to-end loop (2 + bytes of the current block + bytes ahead) and of
+   default_read_exact (1 + n) is never exhausted. *)
+Theorem c03_err_out_of_fuel_unreachable :
+  forall (P : nat) (sch : nat -> list act) (f : efile) (idx : gzi_index) (ops : list mop),
+    (0 < P)%nat -> Forall fuel_free (em_run P sch f idx (em_init f) ops).
+Proof. intros P sch f idx ops HP. exact (em_run_fuel_free P sch HP f idx ops). Qed.
+Print Assumptions c03_err_out_of_fuel_unreachable.
+
+(* ... and in the SINGLE-THREADED error-path reader model, of the tree as it is and of the repaired
+   one, from EVERY state: so the "OutOfFuel = OutOfFuel" case of the equalities of Module ERR never
+   occurs on either side *)
+Theorem c03_err_st_out_of_fuel_unreachable :
+  forall (fxe : bool) (f : efile) (idx : gzi_index) (ops : list op) (st : estate),
+    Forall fuel_free (e_run fxe f idx st ops).
+Proof. exact NV.Bgzf.ReaderErrFuelProofs.e_run_fuel_free. Qed.
+Print Assumptions c03_err_st_out_of_fuel_unreachable.
+
+(* the same for the op-level model (through the bridge) *)
+Theorem c03_ops_out_of_fuel_unreachable :
+  forall (P : nat) (sch : nat -> list act) (f : file) (idx : gzi_index) (ops : list mop),
+    (0 < P)%nat -> Forall fuel_free (m_run P sch f idx (m_init f) ops).
+Proof. exact ops_model_fuel_free. Qed.
+Print Assumptions c03_ops_out_of_fuel_unreachable.
+
+(* fuel is irrelevant: once a loop has ended without exhausting its fuel, more fuel changes nothing *)
+Theorem c03_err_more_fuel_changes_nothing :
+  forall P sch k m n acc,
+    snd (em_read_all_loop P sch k m n acc) <> OutOfFuel ->
+    em_read_all_loop P sch (S k) m n acc = em_read_all_loop P sch k m n acc.
+Proof. exact all_loop_mono. Qed.
+Print Assumptions c03_err_more_fuel_changes_nothing.
+
+(* THE OPEN POINT RAISED BY C02 -- `position` is not advanced over a frame that fails to be read,
+   parsed or inflated, so the virtual positions of all later blocks lag by the size of the failed
+   frames.  BOTH readers do exactly that: after one read_block call the position is the position
+   before plus the sizes of the GOOD frames taken ([gsum]), for every schedule of the wait
+   (multithreaded) and for both parse modes and both [fxe] (single-threaded).  The property
+   compares the two readers, and they lag equally (the equalities of Module ERR include the
+   virtual position after every op), so MT = ST holds; whether the common lag is itself wanted is
+   C02's question, not C03's. *)
+Theorem c03_err_mt_position_counts_good_frames_only :
+  forall P, (0 < P)%nat -> forall seg (s : epst), SchedProofs.wf eframe erdr s ->
+    exists pre, eremaining s = pre ++ eremaining (epull_with P seg s) /\
+      er_position (cs (epull_with P seg s)) = (er_position (cs s) + gsum pre)%N.
+Proof. exact mt_pull_position_good_only. Qed.
+Print Assumptions c03_err_mt_position_counts_good_frames_only.
+
+Theorem c03_err_st_position_counts_good_frames_only :
+  forall fxe m fs st st' r, e_loop fxe m fs st = (st', r) ->
+    exists pre, fs = pre ++ e_rest st' /\ e_position st' = (e_position st + gsum pre)%N.
+Proof. exact st_position_good_only. Qed.
+Print Assumptions c03_err_st_position_counts_good_frames_only.
+
+(* the lag, in both readers: good 33 bytes, CRC failure 35 bytes, good 31 bytes at offset 68 --
+   one byte into the third block both report 33:1, not 68:1 *)
+Example c03_err_position_lag_is_common :
+  let f := [mkE (mkFrame 33 [10; 11]) SGood; mkE (mkFrame 35 [20; 21]) (SLate 2 [20; 21]);
+            mkE (mkFrame 31 [40; 41; 42]) SGood; mkE (mkFrame 28 []) SGood]%N in
+  let ops := [Read 2; Read 9; Read 1]%N in
+  em_run 2 (fun _ => []) f [] (em_init f) (map MOp ops)
+  = [ (OBytes (Ok [10; 11]), Ok (pack 33 0)); (OBytes (Err InvalidData), Ok (pack 33 0));
+      (OBytes (Ok [40]), Ok (pack 33 1)) ]%N
+  /\ e_run true f [] (e_init f) ops = em_run 2 (fun _ => []) f [] (em_init f) (map MOp ops).
+Proof. vm_compute. split; reflexivity. Qed.
+
+(* non-vacuity: the embedded example of Module OPS, run through the error model *)
+Example c03_bridge_example :
+  let f := [mkFrame 30 [1; 2; 3]; mkFrame 28 []; mkFrame 31 [4; 5; 6; 7]; mkFrame 28 []]%N in
+  let sch := sch_of [[0; 0; 0; 1; 1; 1; 6; 4; 5; 2; 3]; []; [0; 1; 4]]%nat in
+  let ops := [MOp (Read 2); MOp FillBuf; MOp (Consume 1); MOp (ReadExact 3); MOp (Seek (pack 30 0));
+              MOp (ReadAll 10); GetMut; MOp (Seek (pack 117 0)); MOp FillBuf; Finish; MOp (Read 1)]%N in
+  em_run 2 sch (goods f) [] (em_init (goods f)) ops = m_run 2 sch f [] (m_init f) ops
+  /\ length (m_run 2 sch f [] (m_init f) ops) = 11%nat.
+Proof. vm_compute. split; reflexivity. Qed.
+End ONE.
+
+(* ============================================================================================
+   ONE WRITER MODEL (round 8; NV.Bgzf.MtWriterBridge): C03's MtWriter (abstract chunks, a sink that
+   fails at ONE call index) and property C14's Sinks.Mt (byte frames, arbitrary fault scripts) are
+   two images of one pipeline state under EVERY schedule, for chunks := the non-empty pieces
+   write_frame hands to write_all and the script Full^j ++ [Fail e]; the staging arithmetic of the
+   two models submits the same number of blocks.
+   ============================================================================================ *)
+Module ONEW.
+Import NV.Sinks.Sink NV.Sinks.Mt NV.Bgzf.MtReaderBridge NV.Bgzf.MtWriterBridge NV.Bgzf.MtWriterBridgeProofs
+       NV.Bgzf.MtStageBridgeProofs.
+
+(* the two staging functions (C03: N, offsets, fuel n / MAX_BUF + 3; C14: nat, fuel n + 1) submit
+   the same number of blocks for every op list *)
+Theorem c03_writer_models_stage_alike :
+  forall ops : list op, mt_nblocks (N.to_nat MAX_BUF) (map mop_of ops) = length (stage ops).
+Proof. exact stage_count_agrees. Qed.
+Print Assumptions c03_writer_models_stage_alike.
+
+(* LOCK STEP: for every error kind e <> Interrupted, framing fr, fault position, pool size, op list
+   and EVERY schedule, the state of C03's writer pipeline and the state of C14's are the images
+   (forget the index / forget the block, embed the sink) of ONE pipeline state: same channel,
+   tickets, pool and done sets, and the writer thread's sink and io::Result correspond *)
+Theorem c03_writer_models_lockstep :
+  forall (e : errk), N.eqb e e_interrupted = false ->
+  forall (fr : blk -> list byte) (fa : option nat) (P : nat) (ops : list op) (sched : list act),
+    w_run (list byte) (fun b => pieces (fr b)) fa P ops sched
+      = map_st snd (fun k => k) (ix_run fr fa P (stage ops) sched) /\
+    mt_state P (N.to_nat MAX_BUF) (map fr (stage ops)) (map mop_of ops) sched (mkSink [] (script_from e fa 0) 0)
+      = map_st fst (emb_sink e fa) (ix_run fr fa P (stage ops) sched).
+Proof. exact writer_models_one. Qed.
+Print Assumptions c03_writer_models_lockstep.
+
+(* hence what finish() (or the call that finds the writer thread dead) returns and the sink are the
+   same in both models under the same schedule, and finish() can return in one iff in the other *)
+Theorem c03_writer_models_same_result :
+  forall (e : errk), N.eqb e e_interrupted = false ->
+  forall (fr : blk -> list byte) (fa : option nat) (P : nat) (ops : list op) (sched : list act),
+    let k := mt_writer (list byte) (fun b => pieces (fr b)) BGZF_EOF fa P ops sched in
+    mt_result (mt_state P (N.to_nat MAX_BUF) (map fr (stage ops)) (map mop_of ops) sched
+                        (mkSink [] (script_from e fa 0) 0))
+      = (mt_res (emb_sink e fa k), mt_sink (emb_sink e fa k)) /\
+    mt_final (mt_state P (N.to_nat MAX_BUF) (map fr (stage ops)) (map mop_of ops) sched
+                       (mkSink [] (script_from e fa 0) 0))
+      = w_final (list byte) (w_run (list byte) (fun b => pieces (fr b)) fa P ops sched).
+Proof. exact writer_models_one_result. Qed.
+Print Assumptions c03_writer_models_same_result.
+
+(* C14's main theorem transported to C03's model (a C03 writer theorem as a corollary of C14's):
+   whatever the schedule, once finish() can return, C03's multithreaded writer has the result and
+   the sink of the sequential chain of write_all calls over the scripted sink *)
+Theorem c03_writer_is_sequential_chain_via_c14 :
+  forall (e : errk), N.eqb e e_interrupted = false ->
+  forall (fr : blk -> list byte) (fa : option nat) (P : nat) (ops : list op) (sched : list act),
+    w_final (list byte) (w_run (list byte) (fun b => pieces (fr b)) fa P ops sched) = true ->
+    let k := mt_writer (list byte) (fun b => pieces (fr b)) BGZF_EOF fa P ops sched in
+    (mt_res (emb_sink e fa k), mt_sink (emb_sink e fa k))
+    = run_calls (mt_calls (N.to_nat MAX_BUF) (map fr (stage ops)) (map mop_of ops))
+                (mkSink [] (script_from e fa 0) 0).
+Proof. exact c03_writer_is_sequential_chain. Qed.
+Print Assumptions c03_writer_is_sequential_chain_via_c14.
+
+(* one write_frame of a block in the two models: 14 write_all calls on the scripted sink =
+   fold of C03's sink over the non-empty pieces *)
+Theorem c03_writer_frame_step_alike :
+  forall (e : errk), N.eqb e e_interrupted = false ->
+  forall (fa : option nat) (k : MtWriter.sink (list byte)) (f : list byte),
+    mtc_step (emb_sink e fa k) f = emb_sink e fa (write_frame fa k (pieces f)).
+Proof. exact frame_sim. Qed.
+Print Assumptions c03_writer_frame_step_alike.
+
+(* the strategy run by the correspondence kind wapi is one of the joint schedules the API theorems
+   of Module API quantify over *)
+Theorem c03_writer_api_case_is_a_schedule :
+  forall P maxbuf frames plan ops script rs s',
+    NV.Bgzf.MtWriterApi.c03_writer_api_case P maxbuf frames plan ops script = Some (rs, s') ->
+    exists sched, let x := NV.Sinks.MtApp.mta_run P maxbuf frames ops sched (mkSink [] script 0) in
+      NV.Sinks.MtApp.m_done x = true /\ rs = NV.Sinks.MtApp.m_rs x /\ s' = snd (mt_result (NV.Sinks.MtApp.m_pipe x)).
+Proof. exact NV.Bgzf.MtWriterApi.c03_writer_api_case_is_a_run. Qed.
+Print Assumptions c03_writer_api_case_is_a_schedule.
+
+(* non-vacuity: two blocks, the sink fails at call 20 (inside the second frame), pool of 2 *)
+Example c03_writer_bridge_example :
+  let f1 := map N.of_nat (seq 1 40) in
+  let f2 := map N.of_nat (seq 101 30) in
+  c03_writer_bridge_case 2 [f1; f2] 3%N (Some 20) [WriteAll 10; Flush; WriteAll 20]
+  = Some (13%N, 21, f1 ++ firstn 10 f2).
+Proof. vm_compute. reflexivity. Qed.
+End ONEW.
